@@ -55,11 +55,12 @@ type caseSpec struct {
 	Allow    bool
 	Implicit bool // the tar may lack parent directory entries
 	Inject   int  // number of landmark-named input entries
+	Dangling int  // number of injected dangling hardlinks
 }
 
 func (c *caseSpec) String() string {
-	return fmt.Sprintf("#%d %s level=%d chunk=%d minchunk=%d workers=%d allowNotFound=%v implicitDirs=%v injectedLandmarks=%d list=%q",
-		c.Idx, c.Scheme, c.Level, c.Chunk, c.MinChunk, c.Workers, c.Allow, c.Implicit, c.Inject, c.List)
+	return fmt.Sprintf("#%d %s level=%d chunk=%d minchunk=%d workers=%d allowNotFound=%v implicitDirs=%v injectedLandmarks=%d danglingLinks=%d list=%q",
+		c.Idx, c.Scheme, c.Level, c.Chunk, c.MinChunk, c.Workers, c.Allow, c.Implicit, c.Inject, c.Dangling, c.List)
 }
 
 func (c *caseSpec) keyClass() string {
@@ -138,6 +139,46 @@ func genCase(r *vf.Run, i int) (*caseSpec, []gen.Entry) {
 		}
 	}
 
+	// dangling hardlinks (the target names no entry of the archive), optionally with a second
+	// link pointing at the dangling one; they and/or a sibling are put into the list below
+	var dangling, danglingSiblings []string
+	if rng.Chance(1, 6) {
+		dr := rng.Derive(5)
+		c.Dangling = dr.Range(1, 2)
+		for k := 0; k < c.Dangling; k++ {
+			// parent: the root or an explicit directory entry; the link goes right after it or later
+			parent, ppos := "", -1
+			var dirIdx []int
+			for i, e := range ents {
+				if e.Type == tar.TypeDir && gen.Clean(e.Name) != "" {
+					dirIdx = append(dirIdx, i)
+				}
+			}
+			if len(dirIdx) > 0 && dr.Chance(2, 3) {
+				ppos = dirIdx[len(dirIdx)-1-dr.Intn((len(dirIdx)+1)/2)] // a late directory entry (not re-defined afterwards in most cases)
+				parent = gen.Clean(ents[ppos].Name) + "/"
+			}
+			name := fmt.Sprintf("%sdangle%d", parent, k)
+			l := gen.Entry{Name: dr.PickS("", "./", "/") + name, Type: tar.TypeLink, Mode: 0o644, ModTime: 1600000100,
+				Linkname: dr.PickS("no/such/target", "../gone", name+"-target", "/zz/absent")}
+			pos := ppos + 1 + dr.Intn(len(ents)-ppos)
+			ents = append(ents[:pos:pos], append([]gen.Entry{l}, ents[pos:]...)...)
+			dangling = append(dangling, name)
+			if dr.Bool() { // a link to the dangling link, later in the archive
+				l2 := gen.Entry{Name: fmt.Sprintf("%sdangle%d-again", parent, k), Type: tar.TypeLink, Mode: 0o644, ModTime: 1600000101, Linkname: "./" + name}
+				pos2 := pos + 1 + dr.Intn(len(ents)-pos)
+				ents = append(ents[:pos2:pos2], append([]gen.Entry{l2}, ents[pos2:]...)...)
+				dangling = append(dangling, gen.Clean(l2.Name))
+			}
+			for _, e := range ents {
+				cl := gen.Clean(e.Name)
+				if cl != name && strings.HasPrefix(cl, parent) && !strings.Contains(strings.TrimPrefix(cl, parent), "/") && !strings.HasPrefix(strings.TrimPrefix(cl, parent), "dangle") && cl != "" && cl+"/" != parent {
+					danglingSiblings = append(danglingSiblings, cl)
+				}
+			}
+		}
+	}
+
 	// candidates
 	m := buildModel(ents)
 	lr := rng.Derive(2)
@@ -203,6 +244,25 @@ func genCase(r *vf.Run, i int) (*caseSpec, []gen.Entry) {
 			isDir = true
 		}
 		c.List = append(c.List, respell(lr, p, isDir))
+	}
+	if len(dangling) > 0 {
+		// list the dangling link, or only a sibling of it, or both, at random positions
+		ins := func(p string) {
+			e := m.byClean[p]
+			sp := respell(lr, p, e != nil && e.Type == tar.TypeDir)
+			pos := lr.Intn(len(c.List) + 1)
+			c.List = append(c.List[:pos:pos], append([]string{sp}, c.List[pos:]...)...)
+		}
+		mode := lr.Intn(3)
+		if mode != 1 {
+			ins(dangling[lr.Intn(len(dangling))])
+		}
+		if mode != 0 && len(danglingSiblings) > 0 {
+			ins(danglingSiblings[lr.Intn(len(danglingSiblings))])
+		}
+		if mode == 1 && len(danglingSiblings) == 0 {
+			ins(dangling[0])
+		}
 	}
 	return c, ents
 }
@@ -487,11 +547,15 @@ func runCase(r *vf.Run, idx int) {
 	if c.Inject > 0 {
 		r.Count("inputs_with_landmark_entries", 1)
 	}
+	if c.Dangling > 0 {
+		r.Count("inputs_with_dangling_hardlinks", 1)
+	}
 	if len(c.List) == 0 {
 		r.Count("lists_empty", 1)
 	}
 	r.Count("listed_paths", len(c.List))
-	r.Count("listed_existing", len(exp.blocks))
+	r.Count("listed_existing", len(exp.items))
+	r.Count("listed_dangling_hardlink_chain", len(exp.dangling))
 	r.Count("listed_definitely_missing", len(exp.missing))
 	r.Count("listed_slack(root/implicit-dir/landmark-name)", len(exp.slack))
 	r.Count("listed_existing_under_implicit_parent", len(exp.implicitParent))
